@@ -5,19 +5,26 @@ import json
 from check import Result
 
 PROP = "C12"
-TARGETS = ["NetqasmVerif.Props.C12"]
+TARGETS = ["NetqasmVerif.Props.C12", "NetqasmVerif.Props.C12Bridge"]
 M = "NetqasmVerif.Props.C12"
 THEOREMS = [(M, "NQ.C12." + n) for n in [
     "exactly_once", "exactly_once_count", "consumed_by_oldest_in_order", "consumed_by_head",
     "retired_iff_complete", "consume_effect", "keep_only_when_free", "unit_never_overwritten",
     "wait_sound", "handlePending_quiescent", "scenario_nonvacuous", "measure_overtakes_deferred_keep"]]
+MB = "NetqasmVerif.Props.C12Bridge"
+THEOREMS += [(MB, "NQ.C12." + n) for n in [
+    "keep_handler_is_exec_keep", "handler_preserves_qubit_invariant", "measure_handler_keeps_rel",
+    "handlePending_preserves_qubit_invariant", "bridge_nonvacuous"]]
 TRANSLATORS = []
 LEVEL_TEXT = ('Lean theorems over a transition system of the controller\'s EPR bookkeeping (request queues per '
               '(remote node, purpose, role), pending list, result arrays, unit modules, live subroutines; actions: '
               'instruction steps incl. create/recv/qalloc/qfree/store/wait, response delivery, poll), proved by '
               'induction over ALL action sequences (no bound on requests, pairs, applications): exactly-once '
               'consumption, consumption by the oldest request in pair order, retirement after exactly tot_pairs, '
-              'slice k / k-th virtual qubit, keep responses only onto free virtual ids, wait soundness. Tie: '
+              'slice k / k-th virtual qubit, keep responses only onto free virtual ids, wait soundness; bridge to the '
+              'controller model of C13: a keep response consumed by this handler is a successful Exec.keepResp, so '
+              'C13\'s qubit invariant is preserved by real response handling under a hypothesis on the link '
+              'layer\'s physical ids only. Tie: '
               'differential replay of random and (thorough) exhaustively enumerated schedules on the real Executor '
               'with instruction-granularity yields vs the compiled model, state compared after every action, plus '
               'a model-free oracle of the six invariants on the executor\'s own fields.')
@@ -37,8 +44,13 @@ ASSUMPTIONS = [
     "the subroutine that issued a request is still live when its responses are consumed (otherwise "
     "_get_app_id raises inside the handler; the model returns 'raises' there too)",
     "requests ask for >= 1 pair and their result array holds 10*pairs entries (a 0-pair request is never retired)",
-    "the link layer delivers the responses of one (node, purpose, role) in sequence order and with fresh "
-    "physical qubit ids; the bookkeeping itself never reads sequence numbers",
+    "LINK-LAYER ORDER: the responses of one queue (remote node, purpose, role) are delivered in the order "
+    "of the requests they answer and with fresh physical qubit ids; the bookkeeping itself never reads "
+    "sequence numbers. 'Pair k of a request' = the k-th response it consumes; this is the k-th pair "
+    "generated for it under link-layer order when the requests of a queue have one type. Observation "
+    "measure_overtakes_deferred_keep (kept as an observation): with keep and measure requests mixed in one "
+    "queue, a measure response answering the younger request is consumed by the older keep request while "
+    "its own keep response is deferred",
     "two live subroutines of one application are switched only at the executor's own yield points",
     "_wait_to_handle_epr_responses is overridden (as every simulator does): the base version recurses forever",
 ]
